@@ -138,7 +138,10 @@ def has_x_free(t, bound=False):
 
 
 class Renderer:
-    def __init__(self, fname="F", only_next=False):
+    def __init__(self, fname="F", only_next=False, selfmode=False):
+        # selfmode: the methods take self.  recurse / call_next stand for the bound method; the function's own
+        # (module-level) name is not bound to anything: it is called in full, F(self, x)
+        self.selfmode = selfmode
         self.prelude = []
         self.fname = fname
         self.only_next = only_next
@@ -158,14 +161,15 @@ class Renderer:
         if n == "C":
             site = "N" if self.only_next else t["site"]
             callee = {"R": "recurse", "N": "call_next", "S": self.fname}[site]
+            own = ["self"] if self.selfmode and site == "S" else []
             if t.get("kwfirst") and t["kw"]["n"] != "null":
                 k = self.r(t["kw"])       # (rendered in evaluation order: the inner-function counters follow it)
                 a = self.r(t["arg"])
-                return f"{callee}(k={k}, x={a})"
+                return f"{callee}({', '.join(own + [f'k={k}', f'x={a}'])})"
             a = self.r(t["arg"])
             if t.get("asvalue") and site != "N":
-                return f"list(map({callee}, [{a}]))[0]"
-            parts = [f"*[{a}]" if t["star"] else (f"x={a}" if t.get("poskw") else a)]
+                return f"list(map({callee}, [self], [{a}]))[0]" if own else f"list(map({callee}, [{a}]))[0]"
+            parts = own + [f"*[{a}]" if t["star"] else (f"x={a}" if t.get("poskw") else a)]
             if t["kw"]["n"] != "null":
                 k = self.r(t["kw"])
                 parts.append(f"**{{'k': {k}}}" if t["dstar"] else f"k={k}")
@@ -173,7 +177,8 @@ class Renderer:
         if n == "CX":
             site = "N" if self.only_next else t["site"]
             callee = {"R": "recurse", "N": "call_next", "S": self.fname}[site]
-            return f"{callee}(x, k=(x := {self.r(t['val'])}))"
+            own = "self, " if self.selfmode and site == "S" else ""
+            return f"{callee}({own}x, k=(x := {self.r(t['val'])}))"
         if n == "Add":
             return f"({self.r(t['a'])} + {self.r(t['b'])})"
         if n == "If":
@@ -230,7 +235,7 @@ def prog_hash(prog):
 def render(prog, wrapper):
     """Returns (source, offset): module-level source defining m_top / m_next
     (or a factory) for the given wrapper."""
-    R = Renderer(only_next=(wrapper == "generator"))
+    R = Renderer(only_next=(wrapper == "generator"), selfmode=(wrapper == "self"))
     expr = R.r(prog)
     slf = "self, " if wrapper == "self" else ""
     extra_pos = ", d: int = 3" if wrapper == "defaults" else ""
